@@ -150,7 +150,7 @@ def bit_split(vals, widths):
     v1, v2 = vals
     w1, w2 = widths
     if not (isinstance(v1, Sym) and v1.op == 'rshift' and v1.args[1] == 8 * w2):
-        return None
+        return bit_split_by_evaluation(v1, v2, w1, w2)
     inner = v1.args[0]
     if not (isinstance(inner, Sym) and inner.op == 'and' and inner.args[1] == ((1 << (8 * w1)) - 1) << (8 * w2)):
         return None
@@ -159,6 +159,36 @@ def bit_split(vals, widths):
     if inner.args[0] != v2.args[0]:
         return None
     return inner.args[0]
+
+
+def bit_split_by_evaluation(v1, v2, w1, w2):
+    """the same question for any spelling of the two halves (divmod, multiplication, a shared helper property): both are
+    expressions over one common non-constant leaf X, and for X over the boundary values of the combined width
+    ``v1 * 256**w2 + v2 == X`` with both halves inside their widths.  Returns X or None"""
+    from .symeval import NotEvaluable, evaluate, leaves
+    ls = [x for x in leaves(v1) + leaves(v2)]
+    uniq = []
+    for x in ls:
+        if not any(show(x) == show(y) for y in uniq):
+            uniq.append(x)
+    if len(uniq) != 1:
+        return None
+    X = uniq[0]
+    total = w1 + w2
+    samples = {0, 1, 0xff, 0x100, 0x1ff, 0x7fff, 0x8000, 0xfffe, (1 << (8 * total)) - 1, (1 << (8 * total - 1)), 0x0304 % (1 << (8 * total)),
+               int.from_bytes(bytes(range(1, total + 1)), 'big')}
+    try:
+        for x in sorted(v for v in samples if 0 <= v < (1 << (8 * total))):
+            def leaf(v, x=x):
+                if show(v) == show(X):
+                    return x
+                raise NotEvaluable(show(v))
+            hi, lo = evaluate(v1, leaf), evaluate(v2, leaf)
+            if not (isinstance(hi, int) and isinstance(lo, int)) or not (0 <= hi < (1 << (8 * w1)) and 0 <= lo < (1 << (8 * w2))) or (hi << (8 * w2)) | lo != x:
+                return None
+    except NotEvaluable:
+        return None
+    return X
 
 
 def codec_name(enc):
